@@ -187,6 +187,8 @@ class CallMixin:
             # the result of a contract call is a fresh unknown; inside a comprehension's element expression it has to be a
             # different unknown per element: done for observer contracts (call_contract_elementwise), otherwise refused
             # rather than modelled as one shared value
+            if getattr(self.cur_contract, "decreases", None) is not None and qual == str(getattr(self, "cur_name", "")).split("@")[0]:
+                raise Unsupported(f"recursive call of {qual} inside a comprehension: the `decreases` measure is not checked there")
             if self._observer_contract(c):
                 return self.call_contract_elementwise(qual, c, args, kwargs, node, st)
             raise Unsupported(f"contract call {qual} inside a comprehension over a symbolic iterable")
@@ -203,6 +205,28 @@ class CallMixin:
             else:
                 raise Unsupported(f"contract call {qual}: missing argument {p}")
         for p, shp in c.params.items():
+            if isinstance(env[p], VRef) and self.shape(shp)[0] == "list" and self.classes.get(env[p].cls, {}).get("boxed_list") and not self.spec:
+                # a list OBJECT passed for a parameter the callee's contract declares as a list value: the contract speaks about
+                # the list's content at the time of the call.  Exact when the callee does not change that list: checked
+                # syntactically on the callee's real body (no mutating method call, item / slice store, augmented assignment
+                # or `del` through the parameter name; passing it on to another call is refused as well)
+                fd_ = self.funcs.get(qual)
+                for n_ in (ast.walk(fd_) if fd_ is not None else ()):
+                    bad_ = False
+                    if isinstance(n_, ast.Call):
+                        if isinstance(n_.func, ast.Attribute) and isinstance(n_.func.value, ast.Name) and n_.func.value.id == p:
+                            bad_ = True  # any method call on the parameter (mutating or not: kept simple)
+                        bad_ = bad_ or any(isinstance(a_, ast.Name) and a_.id == p for a_ in list(n_.args) + [k_.value for k_ in n_.keywords])
+                    elif isinstance(n_, (ast.Subscript, ast.Attribute)) and isinstance(n_.ctx, (ast.Store, ast.Del)):
+                        b_ = n_.value
+                        bad_ = isinstance(b_, ast.Name) and b_.id == p
+                    elif isinstance(n_, ast.AugAssign):
+                        bad_ = isinstance(n_.target, ast.Name) and n_.target.id == p
+                    if bad_:
+                        raise Unsupported(f"contract call {qual}: a list object is passed for {p}, which the callee may change or pass on")
+                if fd_ is None:
+                    raise Unsupported(f"contract call {qual}: a list object passed to a callee whose body is not available")
+                env[p] = self.heap_read(st, env[p], self.classes[env[p].cls]["boxed_list"])
             env[p] = self.coerce(env[p], self.shape(shp))
             if getattr(c, "nonnull_params", False) and isinstance(env[p], VOpt) and self.shape(shp)[0] != "opt" and not self.spec:
                 # opt-in of the callee's contract: an Optional value passed for a parameter declared non-Optional must be
@@ -230,6 +254,22 @@ class CallMixin:
         for k, text in enumerate(c.requires):
             goal = self.spec_eval(text, pre, c)
             self.emit(f"call[{_short(node)}]->{qual}.requires.{k}", st, goal, node, kind="call-pre", guard=list(self.guard))
+        # termination of DIRECT recursion (opt-in): the contract under verification declares `decreases = "<int spec expression
+        # over the parameters>"`.  Every call of the function under verification itself must then have a measure that is
+        # non-negative and strictly smaller than the measure of the current activation (taken at the ENTRY values of the
+        # parameters): a descent in a well-founded order, so the chain of self-calls is finite.  Without `decreases` nothing
+        # changes (partial correctness, as before).  Mutual recursion is not covered by this obligation.
+        dec_ = getattr(self.cur_contract, "decreases", None) if not self.spec else None
+        if dec_ is not None and qual == str(getattr(self, "cur_name", "")).split("@")[0]:
+            if st.old is None:
+                raise Unsupported(f"recursive call of {qual}: no entry state to compare the `decreases` measure with")
+            ent_ = st.old.copy()
+            ent_.env = dict(st.old.env)
+            m_call_, m_self_ = to_z3(self.spec_value(dec_, pre)), to_z3(self.spec_value(dec_, ent_))
+            if not (is_int(m_call_) and is_int(m_self_)):
+                raise Unsupported(f"{qual}: the `decreases` measure must be an integer")
+            self.emit(f"call[{_short(node)}]->{qual}.decreases", st, AND(m_call_ >= 0, m_call_ < m_self_), node, kind="termination",
+                      guard=list(self.guard))
         # frame: havoc what the callee may modify
         for m in getattr(c, "modifies", []):
             if "@" in m:
@@ -403,6 +443,8 @@ class CallMixin:
                 # (a method the sidecar models itself for this class - e.g. __enter__ of a file object whose lines are
                 # iterated like a list - goes to that assumed contract below)
                 return self.boxed_list_method(recv, name, args, node, st)
+            if self.classes.get(recv.cls, {}).get("boxed_set") and qual not in self.externals:
+                return self.boxed_set_method(recv, name, args, node, st)
             ext = self.externals.get(qual)
             if ext is not None:
                 # method of an object of a third-party class, given by an assumed contract of the sidecar (trusted base).
@@ -584,6 +626,17 @@ class CallMixin:
             raise Unsupported(f"{name} of a list object")
         return self.list_method(L, name, args, node, st, BoxTarget(ref, fld))
 
+    def boxed_set_method(self, ref, name, args, node, st):
+        """A Python set object with identity (class entry {"boxed_set": "<field>"}), the counterpart of boxed_list_method:
+        the set value lives in that heap field of the reference; add / discard / remove write the field back."""
+        fld = self.classes[ref.cls]["boxed_set"]
+        S = self.heap_read(st, ref, fld)
+        if name == "__contains__" and len(args) == 1:
+            return self.contains(S, args[0], node)
+        if name in ("add", "discard", "remove") and len(args) == 1:
+            return self.set_method(S, name, args, node, st, BoxTarget(ref, fld))
+        raise Unsupported(f"{name} of a set object")
+
     def set_method(self, S, name, args, node, st, recv_node):
         if name == "add":
             ks = key_terms(args[0])
@@ -657,6 +710,8 @@ class CallMixin:
                 return self.concat_str(parts)
             if s == "" and isinstance(it, VList):
                 return it if it.eshape == ("char",) else VJoined(it)
+            if s == "" and is_str(it):
+                return it  # "".join(t) for a str t: iterating t yields its characters in order, whose concatenation is t
             raise Unsupported("join over a symbolic iterable")
         ext = self.externals.get("str." + name)
         if ext is not None:
